@@ -286,7 +286,7 @@ GraphScenario c12({
    "its unit's global region in exactly the modelled number of steps; global() only there; owner links for class, union, enum, namespace, closure, block, mapping and lambda; a handler's body region is enclosed by a region binding exactly "
    "the exception parameter, itself enclosed by the region enclosing the guarded block; home region, level and zero-based position of parameters/enumerators/bases (homogeneous-scope oracle); every unit's global namespace is unnamed and "
    "typed `namespace`; module units link back to their module. Not asserted: an owner for a handler's body region (the statement speaks of its enclosure only). Non-trivial = at least one region created.",
-   false, 0, 0, 0, 4, 1, 0, 0, 0, false, 0, true, true, 0, 2500, 250000, 15, 140 },
+   false, 0, 0, 0, 4, 1, 0, 0, 0, false, 0, true, true, 4, 2500, 250000, 15, 140 },
    weighted({ { G_units, 3 } }, { { OP_make_subregion, 12 }, { OP_make_class, 8 }, { OP_make_union, 5 }, { OP_make_namespace, 6 }, { OP_make_enum, 6 }, { OP_make_closure, 4 }, { OP_make_block, 10 },
               { OP_block_new_handler, 8 }, { OP_make_where_region, 5 }, { OP_make_mapping, 8 }, { OP_lexicon_make_mapping, 3 }, { OP_make_lambda, 6 }, { OP_make_requires, 5 }, { OP_make_function_morphism, 5 },
               { OP_plist_add_member, 8 }, { OP_mapping_param, 5 }, { OP_enum_add_member, 8 }, { OP_class_declare_base, 6 }, { OP_get_identifier_w, 6 }, { OP_get_pointer, 3 }, { OP_make_var, 3 },
@@ -300,7 +300,7 @@ GraphScenario c14({
    "does not know (scope types, overload sets, type-ids, homogeneous scopes ...), and for every sequence reached: size(), empty(), begin()..end(), position(i) for i in 0..size()+2, SIZE_MAX/2 and SIZE_MAX. "
    "Oracle: each call returns (and its result is touched, so a dangling reference traps under ASan and a null reference under UBSan) or throws an exception derived from std::logic_error; an element at or beyond size() "
    "is always refused; iteration visits exactly size() elements and agrees with positional access. Built with AddressSanitizer and UBSan (-fno-sanitize-recover). Non-trivial = at least one accessor sweep executed.",
-   false, 0, 0, 0, 0, 0, 0, 0, 6, true, 0, false, false, 0, 2000, 200000, 20, 150 },
+   false, 0, 0, 0, 0, 0, 0, 0, 6, true, 0, false, false, 4, 2000, 200000, 20, 150 },
    weighted({ { G_generic, 2 }, { G_names, 2 }, { G_types, 3 }, { G_exprs, 4 }, { G_dirs, 4 }, { G_stmts, 5 }, { G_decls, 5 }, { G_units, 2 }, { G_forms, 3 }, { G_attrs, 3 },
               { G_setters, 4 }, { G_noise, 2 }, { G_macros, 2 } }));
 
